@@ -6,7 +6,7 @@ from .sandbox import MODEL_ROOT
 
 R = MODEL_ROOT
 NAMES = [b"f", b"a b", b"x.txt", b"-dash", b"new\nline", b"per%cent", b"caf\xc3\xa9", b"\xff\xfe", b"q?*[", b".hidden",
-         b"foo", b"foo.trashinfo", b"tab\there", b"a=b", b"\xe2\x82\xac", b"UP", b"up", b"~", b"#h", b"+p", b"d1", b"d2"]
+         b"foo", b"foo.trashinfo", b"tab\there", b"a=b", b"\xe2\x82\xac", b"UP", b"up", b"~", b"#h", b"+p", b"d1", b"d2", b"...", b"....", b"cafe\xcc\x81", b"x.trashinfo.trashinfo"]
 SAFE_NAMES = [b"f", b"foo", b"x.txt", b"UP", b"d1", b"d2", b"a b", b".hidden"]
 DOT_T = b".Trash"
 
@@ -46,12 +46,14 @@ def volume_layout(rng, w, uid, profile="mixed"):
             w.dir(t + b"/%d" % uid, 0o700)
         elif st.startswith("link") and rng.random() < 0.4:
             w.dir(v + b"/real-trash/%d" % uid, 0o700)
-        alt = rng.choice(["absent", "absent", "dir", "dir", "file", "link-other"])
+        alt = rng.choice(["absent", "absent", "dir", "dir", "file", "link-other", "link-dangling"])
         a = v + b"/" + uid_dir(uid)
         if alt == "dir":
             w.dir(a, 0o700)
         elif alt == "file":
             w.file(a, b"x")
+        elif alt == "link-dangling":
+            w.link(a, rng.choice([b"missing-target", v + b"/gone/deeper"]))
         elif alt == "link-other" and len(vols) > 1:
             other = rng.choice([x for x in vols if x != v])
             w.dir(other + b"/alt-target", 0o700)
@@ -59,10 +61,15 @@ def volume_layout(rng, w, uid, profile="mixed"):
     return vols
 
 
-def make_entry(rng, w, d, name, kind=None):
+def make_entry(rng, w, d, name, kind=None, mounts=()):
     """create one entry of a random kind in directory d; returns its kind"""
+    # a link to the top of ANOTHER volume: not the one the link lives on, nor the one holding the home trash (trash
+    # directories created there would count as changes of the link's target)
+    mounts = [m for m in mounts if not (d == m or d.startswith(m + b"/")) and m != R + b"/home"]
     kind = kind or rng.choice(["file", "file", "empty", "tree", "tree", "link-file", "link-dir", "link-dangling",
-                               "link-abs"])
+                               "link-abs"] + (["link-mount"] if mounts else []))
+    if kind == "link-mount" and not mounts:
+        kind = "link-dir"
     p = d + b"/" + name
     if kind == "file":
         w.file(p, rng.choice([b"data", b"hello\n", b"\x00\xff bin", b"x" * 300]), rng.choice([0o644, 0o600, 0o755, 0o444]))
@@ -87,6 +94,18 @@ def make_entry(rng, w, d, name, kind=None):
     elif kind == "link-abs":
         w.file(R + b"/abs-target", b"abs")
         w.link(p, R + b"/abs-target")
+    elif kind == "link-mount":
+        # a symbolic link whose target is the top directory of another volume (directly, relatively or via a second link)
+        mp = rng.choice(list(mounts))
+        w.file(mp + b"/on-volume", b"v")
+        how = rng.choice(["abs", "rel", "via"])
+        if how == "abs":
+            w.link(p, mp)
+        elif how == "rel":
+            w.link(p, relpath(mp, d))
+        else:
+            w.link(d + b"/hop-" + name, mp)
+            w.link(p, b"hop-" + name)
     elif kind == "link-link":
         w.file(d + b"/final-" + name, b"final")
         w.link(d + b"/mid-" + name, b"final-" + name)
@@ -162,6 +181,9 @@ def gen_put_world(rng, profile="mixed"):
     x = rng.random()
     if x < 0.15:
         env["XDG_DATA_HOME"] = home + b"/xdg"
+        if rng.random() < 0.25:
+            # a symbolic link that does not resolve on the way to the home trash: nothing can be created through it
+            w.link(home + b"/xdg", rng.choice([b"nowhere", R + b"/gone/xdg"]))
     elif x < 0.22:
         env["XDG_DATA_HOME"] = b""
     elif x < 0.30 and len(vols) > 1:
@@ -208,7 +230,7 @@ def gen_put_world(rng, profile="mixed"):
             meta.append({"class": "dot"})
             continue
         if r < 0.16:
-            args.append(rng.choice([b"missing", d + b"/missing", b"missing/", b"work/missing/x"]))
+            args.append(rng.choice([b"missing", d + b"/missing", b"missing/", b"work/missing/x", b""]))
             meta.append({"class": "missing"})
             continue
         if r < 0.20 and len(vols) > 1:
@@ -217,8 +239,9 @@ def gen_put_world(rng, profile="mixed"):
             args.append(rng.choice([mp, mp + b"/", relpath(mp, cwd)]))
             meta.append({"class": "mountpoint"})
             continue
-        kind = make_entry(rng, w, d, name, rng.choice(["link-file", "link-dir", "link-dangling", "link-abs", "link-link"])
-                          if profile == "links" and rng.random() < 0.8 else None)
+        kind = make_entry(rng, w, d, name, rng.choice(["link-file", "link-dir", "link-dangling", "link-abs", "link-link"] +
+                                                      (["link-mount", "link-mount"] if len(vols) > 1 else []))
+                          if profile == "links" and rng.random() < 0.8 else None, mounts=vols[1:])
         s, sp = spell(rng, w, d + b"/" + name, cwd, kind)
         if profile == "links" and rng.random() < 0.5:
             s = s.rstrip(b"/") + b"/" * rng.randint(0, 3)
@@ -288,9 +311,9 @@ DATES = ["2000-01-01T00:00:00\x0c", "2000-01-01T00:00:00\x1d", "2000-01-01T00:00
          "2001-01-01T12:00:00+0100", "2001-01-01T12:00:00Z", "2001-01-01T12:00:00-05:00", "2001-01-01T12:00:00 UTC"]
 BAD_DATES = ["2024-02-30T00:00:00", "yesterday", "", "2024-03-01", "2024-03-01T12:00:60", "2024-03-01T12:00:00 ", "2002-02-02T02:02:02+0000", "2002-02-02T02:02:02.000"]
 MALFORMED = ["non-trashinfo", "empty", "truncated", "binary", "non-utf8", "no-path", "no-date", "bad-date", "info-only",
-             "orphan", "odd-stem", "info-is-dir", "info-dangling-link", "dup-keys-crlf"]
+             "orphan", "odd-stem", "info-is-dir", "info-dangling-link", "dup-keys-crlf", "double-suffix"]
 ORIGIN_NAMES = [b"report.txt", b"a b", b"foo", b"foobar", b"foo.o", b"FOO", b"caf\xc3\xa9", b"x%y", b"new\nline", b"-dash", b"d1",
-                b"notes", b"\xff\xfe", b"q?", b"[b]", b"*star"]
+                b"notes", b"\xff\xfe", b"q?", b"[b]", b"*star", b"...", b"....", b"cafe\xcc\x81"]
 
 
 def truthy_date(x):
@@ -318,6 +341,11 @@ def payload(rng, w, p, sentinel):
         w.link(p + b"/to-sentinel-dir", os.path.dirname(sentinel))
         w.link(p + b"/sub/to-sentinel", sentinel)
         w.link(p + b"/sub/dangling", b"nowhere")
+        # directories outside that the owner cannot write or search: nothing may change their mode on the way
+        ro = os.path.dirname(sentinel) + b"/ro"
+        if ro in w.nodes:
+            w.link(p + b"/to-ro", ro)
+            w.link(p + b"/sub/to-ro-x", ro + b"-nox")
     return k
 
 
@@ -345,7 +373,7 @@ def add_good(rng, w, tdir, base, name, loc, date, sentinel, kinds):
     return rec
 
 
-def add_malformed(rng, w, tdir, kind, i):
+def add_malformed(rng, w, tdir, kind, i, good_names=None):
     n = b"m%d" % i
     info = tdir + b"/info/"
     if kind == "non-trashinfo":
@@ -383,6 +411,13 @@ def add_malformed(rng, w, tdir, kind, i):
         w.file(tdir + b"/files/" + n, b"p")
     elif kind == "info-dangling-link":
         w.link(info + n + b".trashinfo", b"nowhere")
+    elif kind == "double-suffix":
+        # info/<N>.trashinfo.trashinfo without payload of its own, next to the well-formed entry <N>: old, matches "*"
+        good = [x for x in (good_names or []) if info + x + b".trashinfo.trashinfo" not in w.nodes]
+        if good:
+            g = rng.choice(good)
+            w.file(info + g + b".trashinfo.trashinfo",
+                   b"[Trash Info]\nPath=" + R + b"/w/" + g + b".trashinfo\nDeletionDate=1990-01-01T00:00:00\n")
     elif kind == "dup-keys-crlf":
         w.file(info + n + b".trashinfo", b"Path=" + R + b"/w/dup%d\r\nPath=/other\r\nDeletionDate=2021-05-05T05:05:05\r\nDeletionDate=bad\r\n" % i)
         w.file(tdir + b"/files/" + n, b"p")
@@ -399,6 +434,8 @@ def gen_trash_world(rng, cmd, profile="mixed"):
         env["XDG_DATA_HOME"] = rng.choice([home + b"/xdg", b""])
     sentinel = w.file(R + b"/outside/sentinel", b"must survive")
     w.file(R + b"/outside/other", b"also")
+    w.dir(R + b"/outside/ro", 0o555)
+    w.dir(R + b"/outside/ro-nox", 0o600)
     # the trash dirs the commands may visit
     tdirs = []
     hx_ = (env.get("XDG_DATA_HOME") or home + b"/.local/share") + (b"/Trash")
@@ -447,7 +484,8 @@ def gen_trash_world(rng, cmd, profile="mixed"):
                     entries.append({"tdir": tdir, "name": t2, "loc": loc, "rec": rec2, "date": d2, "base": base, "dup": True})
         nbad = {"clean": 0, "mixed": rng.choice([0, 0, 1, 2]), "malformed": rng.choice([2, 3, 5])}[profile]
         for j in range(nbad):
-            add_malformed(rng, w, tdir, rng.choice(MALFORMED), 100 * len(entries) + j)
+            add_malformed(rng, w, tdir, rng.choice(MALFORMED), 100 * len(entries) + j,
+                          good_names=[e["name"] for e in entries if e["tdir"] == tdir])
     # some destinations already exist (restore must refuse / overwrite)
     for e in entries:
         r = rng.random()
@@ -478,6 +516,15 @@ def gen_trash_world(rng, cmd, profile="mixed"):
         if rng.random() < 0.4 and entries:
             e = rng.choice(entries)
             opts["path"] = rng.choice([os.path.dirname(e["loc"]), e["loc"], os.path.dirname(os.path.dirname(e["loc"])), b"/", b"w", b"."])
+            if rng.random() < 0.25:
+                # the same directory named through a symbolic link: entries are matched by their recorded text, not by
+                # where the link leads
+                par = os.path.dirname(e["loc"])
+                if par not in w.nodes:
+                    w.dir(par)
+                if w.nodes[par]["k"] == "d" and R + b"/lnk-to-area" not in w.nodes:
+                    w.link(R + b"/lnk-to-area", par)
+                    opts["path"] = rng.choice([R + b"/lnk-to-area", R + b"/lnk-to-area/", R + b"/lnk-to-area/" + os.path.basename(e["loc"])])
         n = len(entries)
         reply = rng.choice([b"0", b"0", b"1", b"0-1", b"0,1", b"1,0", b"", b"x", b"9", b"0-", b"1-2-3", b" 0 ", b"+1", b"0-%d" % max(n - 1, 0),
                             b"%d" % max(n - 1, 0), b"2,2", b"3-1", b"0,,1"])
@@ -494,9 +541,13 @@ def gen_trash_world(rng, cmd, profile="mixed"):
             opts["dryRun"] = True
         if rng.random() < 0.3:
             opts["verbose"] = rng.choice([1, 2])
-        if rng.random() < 0.3:
+        if rng.random() < 0.4:
             opts["interactive"] = True
+            if rng.random() < 0.4:
+                opts["ttyDefault"] = True       # no -i on the command line: stdin is a terminal
             stdin = None if rng.random() < 0.1 else rng.choice([b"y", b"Y", b"yes", b"n", b"", b"N", b" y", b"x", b"Yes please"]) + b"\n"
+        elif rng.random() < 0.3:
+            opts["ttyDefault"] = True           # neither -i nor -f and stdin is not a terminal: no question
         if custom and rng.random() < 0.6:
             opts["userDirs"] = [custom]
     elif cmd == "rm":
